@@ -1,4 +1,6 @@
 import CasbinVerif.Spec.Perm
+import CasbinVerif.Proofs.RoleGraph
+import CasbinVerif.Proofs.Enforce
 /-
   C01 — Enforce decisions equal the PERM semantics of model, policy and role links.
 
@@ -12,27 +14,30 @@ namespace Casbin.C01
 /-- the executable reachability of the specification is the inductive relation -/
 theorem reachB_iff (links : List Link) (d : String) (n : Nat) (u r : String) :
     reachB links d n u r = true ↔ ReachWithin links d n u r := by
-  sorry
+  exact reachB_iff' links d n u r
 
 /-- the role manager's breadth-first search decides reachability within the depth bound:
     `HasLink` holds exactly for names at most `maxLevel` links away (and for equal names) -/
 theorem hasLink_iff_reach (rm : RM) (u r : String) (ds : List String) :
     rm.hasLink u r ds = true ↔ ReachWithin rm.links (rm.dom ds) rm.maxLevel u r := by
-  sorry
+  exact hasLink_iff_reach' rm u r ds
 
 /-- the links held after building them from the listed grouping rules are the rules' links -/
 theorem applyRules_links (k : RMKind) (count : Nat) (rules : List Rule)
     (hlen : ∀ r ∈ rules, count ≤ r.length) (hc : 2 ≤ count) :
     ∃ rm, (RM.empty k).applyRules count true rules = (rm, true) ∧
       ∀ l, l ∈ rm.links ↔ l ∈ linksOfRules count k rules := by
-  sorry
+  obtain ⟨rm, h1, _, h3⟩ := applyRules_links_gen count rules (RM.empty k) hlen hc
+  refine ⟨rm, h1, fun l => ?_⟩
+  rw [h3 l]
+  simp [RM.empty]
 
 /-- the matcher evaluation depends on the role links only through their answers -/
 theorem evalExpr_congr_link (fuel : Nat) (ρ ρ' : Env) (e : Expr)
     (hr : ρ.r = ρ'.r) (hp : ρ.p = ρ'.p) (hf : ρ.fn = ρ'.fn) (ht : ρ.evalTab = ρ'.evalTab)
     (hl : ∀ gt args, ρ.link gt args = ρ'.link gt args) :
     evalExpr fuel ρ e = evalExpr fuel ρ' e := by
-  sorry
+  exact evalExpr_congr fuel ρ ρ' e hr hp hf ht hl
 
 /-- the hypothesis about the empty-policy shortcut of `enforce()` (finding D24): when the policy is
     empty and the matcher mentions it, the code evaluates the matcher against an all-empty allow
@@ -61,12 +66,70 @@ theorem enforce_eq_perm (md : ModelDef) (policy grouping : String → List Rule)
     (hwf : emptyPolicyOk md policy links fn evalTab ctx rvals = true)
     (hs : specEnforce md policy grouping fn evalTab ctx rvals = some d) :
     (enforce md policy links fn evalTab ctx none rvals).map (·.1) = some d := by
-  sorry
+  have hl : links = specLink md grouping 10 := funext fun gt => funext fun args => hlinks gt args
+  subst hl
+  unfold specEnforce at hs
+  simp only [Option.bind_eq_bind, Option.bind_eq_some_iff] at hs
+  obtain ⟨m, hm, rArity, hr, tokens, hp, eexpr, he, k, hk, hs⟩ := hs
+  simp only [emptyPolicyOk, hm, hp, he] at hwf
+  simp only [enforce, hm, hr, hp, he, hk]
+  split at hs
+  · cases hs
+  rename_i har
+  rw [if_neg har]
+  split at hs
+  · cases hs
+  rename_i hev
+  split at hs
+  · -- the matcher mentions the policy
+    rename_i hmp
+    simp only [Option.bind_eq_some_iff, Option.some.injEq] at hs
+    obtain ⟨cells, hcells, hd⟩ := hs
+    cases hpol : policy ctx.pType with
+    | nil =>
+      -- empty policy: the all-empty pseudo-rule, covered by `emptyPolicyOk`
+      rw [hpol] at hcells hev hwf
+      simp only [List.mapM_nil] at hcells
+      cases hcells
+      simp only [List.isEmpty_nil, hmp, Bool.and_self, if_true, Bool.and_eq_true,
+        Bool.not_eq_true'] at hwf
+      obtain ⟨hne, hwf⟩ := hwf
+      simp only [List.isEmpty_nil, Bool.not_true, Bool.false_and, Bool.false_eq_true, if_false,
+        hne, List.length_nil]
+      split at hwf
+      · rename_i b hb
+        rw [hb]
+        simp only [Option.map_some, Option.some.injEq]
+        rw [← hd]
+        apply else_empty
+        rw [hk] at hwf
+        cases k <;> cases b <;> first | rfl | (exact absurd hwf (by decide))
+      · cases hwf
+    | cons rule rest =>
+      rw [hpol] at hcells
+      have hb := policy_branch k (rule :: rest) _ cells (by simp) hcells
+      simp only [List.isEmpty_cons, Bool.not_false, hmp, Bool.and_self, if_true]
+      rw [hb.1]
+      simp only [Option.map_some, Option.some.injEq]
+      rw [hb.2, hd]
+  · -- the matcher does not look at the policy
+    rename_i hmp
+    have hmp' : m.mentionsP = false := by simpa using hmp
+    simp only [hmp', Bool.and_false, Bool.false_eq_true, if_false]
+    rw [if_neg hev]
+    split at hs
+    · rename_i b hb
+      simp only [Option.some.injEq] at hs
+      rw [hb]
+      simp only [Option.map_some, Option.some.injEq]
+      rw [← hs]
+      exact else_spec k b
+    · cases hs
 
 /-- when every rule evaluates without error, the streaming loop with errors is the plain loop -/
 theorem loopFromE_ok (k : EffectKind) (len : Nat) (filled cells : List Cell) :
     loopFromE k len filled (cells.map some) = some (loopFrom k len filled cells) := by
-  sorry
+  exact loopFromE_ok' k len filled cells
 
 /-- an error-free answer only depends on the rules up to the deciding one: if the loop answers,
     the rules it looked at all evaluated without error, it answers what the error-free loop answers
@@ -75,7 +138,7 @@ theorem loopFromE_some_prefix (k : EffectKind) (len : Nat) (filled : List Cell) 
     (r : Eft × Option Nat) (h : loopFromE k len filled todo = some r) :
     ∃ cells rest, todo = cells.map some ++ rest ∧ r = loopFrom k len filled cells ∧
       (r.1 = .indeterminate → rest = []) := by
-  sorry
+  exact loopFromE_some_prefix' k len filled todo r h
 
 /-- Enforce, EnforceEx, BatchEnforce are one call of `enforce` in Go; EnforceWithMatcher given the
     model's own matcher returns the same result -/
@@ -83,12 +146,12 @@ theorem withMatcher_own (md : ModelDef) (policy : String → List Rule) (links :
     (fn : String → List Val → Res) (evalTab : String → Option Expr) (ctx : EnforceCtx) (rvals : List Val)
     (m : Expr) (hm : md.m.lookup ctx.mType = some m) :
     enforce md policy links fn evalTab ctx (some m) rvals = enforce md policy links fn evalTab ctx none rvals := by
-  sorry
+  simp only [enforce, hm]
 
 /-- the g() memo key is injective on NUL-free arguments -/
 theorem gMemoKey_injective (as bs : List String)
     (ha : ∀ a ∈ as, Char.ofNat 0 ∉ a.toList) (hb : ∀ b ∈ bs, Char.ofNat 0 ∉ b.toList)
     (h : gMemoKey as = gMemoKey bs) : as = bs := by
-  sorry
+  exact gMemoKey_injective' as bs ha hb h
 
 end Casbin.C01
